@@ -50,6 +50,9 @@ type opGen struct {
 	// sub-selections generated so far, per type: re-used now and then so that one operation holds
 	// equal selection sets in several places (what de-duplication and minification act on)
 	seen map[string][][]*TSel
+	// repetitive mode: wide selection sets, always re-used (long subgraph operations with repeated
+	// selection sets: what the minifier rewrites)
+	rep bool
 }
 
 func cloneT(ts []*TSel) []*TSel {
@@ -68,6 +71,10 @@ func GenTemplate(r *common.Rand, cfg *fedlab.Config, u *fedlab.Universe) *Templa
 	g := &opGen{r: r, cfg: cfg, u: u, max: 6 + r.Pick(18), seen: map[string][][]*TSel{}}
 	if r.Chance(1, 4) {
 		g.max = 25 + r.Pick(30)
+	}
+	if r.Chance(1, 5) {
+		g.rep = true
+		g.max = 60 + r.Pick(40)
 	}
 	t := &Template{}
 	if r.Chance(2, 3) {
@@ -178,7 +185,7 @@ func (g *opGen) args(typ string, f *fedlab.FieldDef) []TArg {
 // sels generates a selection set on (composite) type typ.
 func (g *opGen) sels(typ string, depth int, root bool) []*TSel {
 	if !root && g.seen != nil {
-		if prev := g.seen[typ]; len(prev) > 0 && g.r.Chance(2, 5) {
+		if prev := g.seen[typ]; len(prev) > 0 && (g.rep || g.r.Chance(2, 5)) {
 			return cloneT(prev[g.r.Pick(len(prev))])
 		}
 	}
@@ -258,6 +265,9 @@ func (g *opGen) sels1(typ string, depth int, root bool) []*TSel {
 	if root {
 		want = 1 + r.Pick(3)
 	}
+	if g.rep {
+		want = 4 + r.Pick(4)
+	}
 	for _, f := range fields {
 		if len(out) >= want || g.n >= g.max {
 			break
@@ -280,6 +290,11 @@ func (g *opGen) sels1(typ string, depth int, root bool) []*TSel {
 			s.Dir = &TDir{Name: common.PickOf(r, []string{"skip", "include"}), If: r.Chance(1, 2)}
 		}
 		add(s)
+		if g.rep && leaf && len(f.Args) == 0 && !root {
+			for k := 1 + r.Pick(3); k > 0; k-- {
+				add(&TSel{Alias: fmt.Sprintf("%s_r%d", f.Name, k), Name: f.Name})
+			}
+		}
 		// the same field again under another alias with other arguments
 		if leaf && len(f.Args) > 0 && r.Chance(1, 3) {
 			add(&TSel{Alias: fmt.Sprintf("%s_b", f.Name), Name: f.Name, Args: g.args(typ, f)})
